@@ -378,6 +378,10 @@ class Group:
     """one environment, several root annotations, many cases"""
 
     def __init__(self, env, roots, suppressed):
+        # private copies: materialise() puts equal unions of this module into one member order IN PLACE, and
+        # generators share sub-descriptions between roots and between groups
+        import copy
+        env, roots = copy.deepcopy((env, roots))
         self.env = env
         self.roots = roots
         self.mod, self.pytys, self.src = materialise(env, roots)
